@@ -11,6 +11,42 @@ HEADER = "From Qib Require Import Hamil.HamilCheck.\nFrom Coq Require Import QAr
 
 # ------------------------------------------------------------------------------ lattices
 
+_USER_LATTICE = []
+
+
+def user_lattice_class():
+    """A user-defined lattice (AbstractLattice is the public extension point): sites on a line, neighbours given by a
+    symmetric 0/1 matrix with zero diagonal; adjacency_matrix() returns the array the object stores - as
+    CustomizedLattice did before /repo 60857f4, and as AbstractLattice's contract allows.  A Hamiltonian that writes
+    into the array it gets from adjacency_matrix() corrupts such a lattice."""
+    if not _USER_LATTICE:
+        from qib.lattice import AbstractLattice
+
+        class StoredAdjacencyLattice(AbstractLattice):
+            def __init__(self, adj):
+                self.adj = np.array(adj, dtype=int)
+                self.shape = (len(self.adj),)
+
+            @property
+            def nsites(self):
+                return len(self.adj)
+
+            @property
+            def ndim(self):
+                return 1
+
+            def adjacency_matrix(self):
+                return self.adj
+
+            def index_to_coord(self, i):
+                return (i,)
+
+            def coord_to_index(self, c):
+                return int(c[0])
+        _USER_LATTICE.append(StoredAdjacencyLattice)
+    return _USER_LATTICE[0]
+
+
 def make_lattice(spec, keep=None):
     """keep: optional dict; receives every array handed to a lattice constructor (caller-owned)"""
     import qib
@@ -34,9 +70,17 @@ def make_lattice(spec, keep=None):
         if keep is not None:
             keep["CustomizedLattice.adj"] = a
         return L.CustomizedLattice(tuple(spec["shape"]), a)
+    if cls == "StoredAdjacencyLattice":
+        a = np.array(spec["adj"], dtype=int)
+        if keep is not None:
+            keep["StoredAdjacencyLattice.adj"] = a
+        return user_lattice_class()(a)
     if cls == "LayeredLattice":
         return L.LayeredLattice(make_lattice(spec["base"], keep), spec["nlayers"])
     raise ValueError(cls)
+
+
+TRIANGLE_TAIL = [[0, 1, 1, 0], [1, 0, 1, 0], [1, 1, 0, 1], [0, 0, 1, 0]]      # triangle with a dangling site
 
 
 def catalogue(rng, thorough):
@@ -74,6 +118,9 @@ def catalogue(rng, thorough):
         specs.append({"cls": "CustomizedLattice", "shape": [n], "adj": a.tolist()})
     # no edges at all
     specs.append({"cls": "CustomizedLattice", "shape": [3], "adj": np.zeros((3, 3), dtype=int).tolist()})
+    # user-defined AbstractLattice subclass that returns its stored adjacency array
+    specs.append({"cls": "StoredAdjacencyLattice", "adj": TRIANGLE_TAIL})
+    specs.append({"cls": "StoredAdjacencyLattice", "adj": [[0, 1, 0], [1, 0, 1], [0, 1, 0]]})
     bases = [{"cls": "IntegerLattice", "shape": [1], "pbc": [False]},
              {"cls": "IntegerLattice", "shape": [2], "pbc": [False]},
              {"cls": "IntegerLattice", "shape": [2], "pbc": [True]},
@@ -87,7 +134,8 @@ def catalogue(rng, thorough):
              {"cls": "IntegerLattice", "shape": [4], "pbc": [True]},
              {"cls": "IntegerLattice", "shape": [5], "pbc": [False]},
              {"cls": "CustomizedLattice", "shape": [3], "adj": [[0, 1, 1], [1, 0, 0], [1, 0, 0]]},
-             {"cls": "CustomizedLattice", "shape": [4], "adj": [[0, 1, 1, 0], [1, 0, 1, 0], [1, 1, 0, 1], [0, 0, 1, 0]]}]
+             {"cls": "CustomizedLattice", "shape": [4], "adj": [[0, 1, 1, 0], [1, 0, 1, 0], [1, 1, 0, 1], [0, 0, 1, 0]]},
+             {"cls": "StoredAdjacencyLattice", "adj": [[0, 1, 0], [1, 0, 1], [0, 1, 0]]}]
     for b in bases:
         for nl in (1, 2, 3):
             specs.append({"cls": "LayeredLattice", "base": b, "nlayers": nl})
@@ -816,6 +864,9 @@ def history_catalogue(rng, thorough):
             {"cls": "CustomizedLattice", "shape": [3], "adj": [[0, 0, 1], [0, 0, 1], [1, 1, 0]]},
             {"cls": "CustomizedLattice", "shape": [2], "adj": [[0, 1], [1, 0]]},
             {"cls": "CustomizedLattice", "shape": [3], "adj": [[0, 0, 0], [0, 0, 0], [0, 0, 0]]},
+            {"cls": "StoredAdjacencyLattice", "adj": TRIANGLE_TAIL},
+            {"cls": "StoredAdjacencyLattice", "adj": [[0, 1], [1, 0]]},
+            {"cls": "LayeredLattice", "nlayers": 2, "base": {"cls": "StoredAdjacencyLattice", "adj": [[0, 1, 1], [1, 0, 0], [1, 0, 0]]}},
             {"cls": "LayeredLattice", "nlayers": 2, "base": {"cls": "IntegerLattice", "shape": [2], "pbc": [False]}},
             {"cls": "LayeredLattice", "nlayers": 2,
              "base": {"cls": "CustomizedLattice", "shape": [3], "adj": [[0, 1, 1], [1, 0, 0], [1, 0, 0]]}},
@@ -937,7 +988,11 @@ def run(ctx):
     ctx.trusted.append(
         "C15: regenerated from /repo on every run (gen/hamil.py): the loop nests of Ising/Heisenberg as_pauli_operator, "
         "the Hubbard coefficient-tensor construction, MolecularHamiltonian's symmetry checks, is_hermitian bodies and "
-        "as_field_operator. Hand-modelled and tied by correspondence: PauliString.from_single_paulis / PauliOperator (C09 model), "
+        "as_field_operator; guarded fail-closed by the translator without Coq output: the isinstance validations and plain "
+        "attribute stores of the Ising/Heisenberg/Hubbard constructors, every as_matrix body = matrix of the generated operator. "
+        "Statefulness is outside the model (the model is a pure function of the adjacency): tied by the history oracle and by "
+        "history correspondence cases that feed the model the adjacency recorded BEFORE the history. "
+        "Hand-modelled and tied by correspondence: PauliString.from_single_paulis / PauliOperator (C09 model), "
         "FieldOperator.as_matrix (Jordan-Wigner kron loop, modelled as structural Kronecker products; zero-coefficient skipping "
         "is a no-op in exact arithmetic), numpy kron/identity/zeros/transpose/conj/.T as their index formulas")
     ctx.assumes.append("adjacency_matrix() is 0/1, symmetric with zero diagonal (C14's conclusion) - inputs violating it are "
@@ -947,7 +1002,7 @@ def run(ctx):
     nmat_coq = 5 if ctx.thorough else 4
     nmat_np = 10 if ctx.thorough else 8
     ctx.rules.append("every lattice class (Integer, Triangular, OddFaceCentered, Hexagonal, Brick, FullyConnected, Customized, "
-                     "Layered) x small shapes x all boundary-condition combinations, adjacency_matrix() of the implementation as "
+                     "Layered, and a user-defined AbstractLattice subclass whose adjacency_matrix() returns its stored array) x small shapes x all boundary-condition combinations, adjacency_matrix() of the implementation as "
                      "input; dyadic couplings incl. 0 and negative; both Ising conventions; Hubbard spinless on every lattice and "
                      "spinful on every 2-layer lattice; molecular tensors on 1..4 orbitals with/without the declared symmetries. "
                      "Model matrices compared for <= %d sites, numpy oracle for <= %d sites. "
@@ -1121,7 +1176,7 @@ def run(ctx):
         short = {"kind": "history", "lattice": hist["lattice"],
                  "steps": [{k: v for k, v in st.items() if k not in ("tkin", "vint")} for st in hist["steps"]]}
         try:
-            fails = run_history(hist, nmat_np, col, nmat_coq - 1, nmat_coq)
+            fails = run_history(hist, nmat_np, col, 3, 4)
         except Exception as e:
             ctx.fail("history:exception", hist, "every generation succeeds", repr(e))
             continue
@@ -1140,7 +1195,7 @@ def run(ctx):
             cases.append((term, dict(short, steps=short["steps"][:len(desc["steps"])])))
             if nt:
                 ctx.nontriv(cases[-1][1])
-    ctx.sample(short)
+    ctx.sample(short, cap=7)
     ctx.log('histories done, %d cases' % len(cases))
     dis = ctx.cases("hamil", HEADER, cases, shard=40)
     ctx.log('model evaluation done')
